@@ -1,6 +1,7 @@
 import OhkamiModel.HttpProofs
 import OhkamiModel.HttpSound
 import OhkamiModel.M.HttpObs
+import OhkamiModel.GenConsts
 /-! # C02 — property theorems about the model of `Request::read` (OhkamiModel/Http.lean) -/
 namespace C02
 open Ohkami Ohkami.Http Ohkami.P
@@ -74,5 +75,10 @@ theorem tchar_is_rfc9110 : ∀ n : Fin 256, Ohkami.Http.isTchar (UInt8.ofNat n.v
     (([33, 35, 36, 37, 38, 39, 42, 43, 45, 46, 94, 95, 96, 124, 126] : List Nat).contains n.val      -- ! # $ % & ' * + - . ^ _ ` | ~
       || (48 ≤ n.val && n.val ≤ 57) || (65 ≤ n.val && n.val ≤ 90) || (97 ≤ n.val && n.val ≤ 122)) := by                 -- DIGIT / ALPHA
   decide +kernel
+
+/-- **The announced length is judged before anything is loaded** (`0 => no payload`, `PAYLOAD_LIMIT.. => 413`, otherwise the body is read): the order of
+`finish` in the model is the order of `Request::read` in the source, as the translator reads it on every run — so whether a length is refused does not depend on
+where the body bytes happen to be (the first read or later ones) -/
+theorem source_limits_before_loading : Ohkami.Gen.limitCheckedBeforeLoading = true := by decide
 
 end C02
